@@ -43,7 +43,7 @@ RULE = (
 CLASSES = [
     "stale_superset", "stale_subset", "fresh_session_update", "same_session_update", "cache_deleted",
     "rekey_after_cache", "empty_workspace_update", "rekey_collision", "update_rewrites", "update_noop",
-    "created_by_other_session", "rekey_whole_sp_retyped_key", "created_by_clone",
+    "created_by_other_session", "rekey_whole_sp_retyped_key", "created_by_clone", "update_cache_cli", "cache_file_as_new_as_workspace",
 ]
 ASSUMPTIONS = [
     "only existing jobs are opened by id (a cached id of a removed job may legitimately be re-opened)",
@@ -417,8 +417,40 @@ class Sim:
         if not self.model:
             self.cl.add("empty_workspace_update")
         before = self.cache_bytes()
+        if op.get("touched") and before is not None:
+            # the cache file's timestamp says nothing about its content (restored from a backup, copied, written
+            # within one tick of the last workspace change): here it is as new as the workspace directory
+            self.cl.add("cache_file_as_new_as_workspace")
+            now = os.stat(os.path.join(self.root, "workspace")).st_mtime_ns + 1000
+            os.utime(self.cache_fn, ns=(now, now))
         try:
-            ret = self.project.update_cache()
+            if op.get("cli"):
+                # the command line front end: `signac update-cache` run in the project directory
+                import contextlib
+                import io
+
+                from signac import __main__ as cli
+
+                self.cl.add("update_cache_cli")
+                fresh = True
+                here = os.getcwd()
+                os.chdir(self.root)
+                err = io.StringIO()
+                try:
+                    with contextlib.redirect_stderr(err), contextlib.redirect_stdout(io.StringIO()):
+                        cli.main_update_cache(None)
+                finally:
+                    os.chdir(here)
+                said = err.getvalue()
+                if "up to date" in said:
+                    ret = None
+                else:
+                    try:
+                        ret = int(said.rsplit("size=", 1)[1].split(")")[0])
+                    except (IndexError, ValueError):
+                        ret = said.strip()[-80:]
+            else:
+                ret = self.project.update_cache()
         except Exception as e:
             self.mm("update_cache_raises", "update_cache() raised %s: %s" % (type(e).__name__, e))
             return
@@ -649,7 +681,7 @@ REMOVE = fd(op="remove", k=KS, by=BY)
 REKEY = fd(op="rekey", k=KS, to=K, by=BY, how=st.sampled_from(["setitem", "setitem", "assign", "update_statepoint"]), read_first=st.booleans())
 EXT = fd(op="ext_init", k=KS)
 CLONE = fd(op="clone_in", k=KS)
-UPDATE = fd(op="update_cache")
+UPDATE = st.one_of(fd(op="update_cache"), fd(op="update_cache"), fd(op="update_cache", cli=st.booleans(), touched=st.booleans()))
 RESTART = fd(op="restart")
 DELETE = fd(op="delete_cache")
 OBSERVE = fd(op="observe")
@@ -720,6 +752,10 @@ CONSTRUCTED = [
     {"filters": F6, "ops": [{"op": "init", "k": 0}, {"op": "update_cache"}, {"op": "clone_in", "k": 3}, {"op": "observe"}, {"op": "update_cache"}, {"op": "observe"},
                             {"op": "restart"}, {"op": "clone_in", "k": 5}, {"op": "update_cache"}, {"op": "observe"}]},
     # cache_deleted, empty_workspace_update
+    # the command line front end; a cache file whose timestamp is as new as the workspace directory's
+    {"filters": F6, "ops": [{"op": "init", "k": 0}, {"op": "update_cache", "cli": True}, {"op": "init", "k": 3}, {"op": "update_cache", "cli": True, "touched": True}, {"op": "observe"},
+                            {"op": "remove", "k": 0, "by": "sp"}, {"op": "restart"}, {"op": "update_cache", "cli": True, "touched": True}, {"op": "observe"}]},
+    {"filters": F6, "ops": [{"op": "init", "k": 1}, {"op": "update_cache"}, {"op": "init", "k": 2}, {"op": "restart"}, {"op": "update_cache", "touched": True}, {"op": "observe"}]},
     {"filters": [0, 12, 13, 7, 8, 9], "ops": [{"op": "update_cache"}, {"op": "init", "k": 4}, {"op": "update_cache"}, {"op": "delete_cache"}, {"op": "restart"},
                                                {"op": "observe"}, {"op": "remove", "k": 4, "by": "sp"}, {"op": "update_cache"}, {"op": "restart"}, {"op": "update_cache"}]},
 ]
